@@ -47,15 +47,17 @@ func (f *NthValue) Call(s *slip.Scope, args slip.List, depth int) (result slip.O
 	slip.CheckArgCount(s, depth, f, args, 2, 2)
 	arg1 := slip.EvalArg(s, args, 1, depth+1)
 
-	if values, ok := arg1.(slip.Values); ok {
-		var num slip.Integer
-		if num, ok = args[0].(slip.Integer); !ok {
-			slip.TypePanic(s, depth, "n", args[0], "integer")
-		}
-		n := int(num.Int64())
-		if 0 <= n && n < len(values) {
-			result = values[n]
-		}
+	values, ok := arg1.(slip.Values)
+	if !ok {
+		values = slip.Values{arg1} // a form that returns one value returns it as value 0
+	}
+	var num slip.Integer
+	if num, ok = args[0].(slip.Integer); !ok {
+		slip.TypePanic(s, depth, "n", args[0], "integer")
+	}
+	n := int(num.Int64())
+	if 0 <= n && n < len(values) {
+		result = values[n]
 	}
 	return
 }
